@@ -307,6 +307,24 @@ def check_push_chain(chk, prog):
     chk.judge(ok, R, "egglog::EGraph::push", "snapshot = clone of self, chained to the previously pushed snapshot", why, f.loc)
 
 
+def check_registry_overwrite(chk, prog):
+    """the name -> table registry is shared between an e-graph and its snapshots (finding F5) and entries of popped scopes stay behind
+    as dead handles (that is what the is_live filter is for). A later declaration under the same name must therefore REPLACE the entry."""
+    R = chk.rule("R-REGISTRY-OVERWRITE", "ActionRegistry::register_table stores the new handle under the name unconditionally (a plain map insert on every path): entries left behind by a "
+                 "popped scope are dead handles, and a keep-the-first-entry insertion (entry().or_insert) would make the re-declared table unreachable by name forever")
+    f = prog.need("egglog_bridge::ActionRegistry::register_table")
+    ins = [c for c in f.calls if c.p.endswith("HashMap::insert") and any(a[0] == "param" and a[1] == 1 and a[2][-1:] == ("table_actions",) for a in f.origins(c.args[0]))]
+    ok = bool(ins)
+    if ok:
+        c = ins[0]
+        ok = (c.bb == 0 or not any(f.term(b)[0] == "ret" for b in f.reach_avoiding_from_entry({c.bb})))
+        ok = ok and any(a[0] == "param" and a[1] == 2 for a in f.origins(c.args[1])) and any(a[0] == "param" and a[1] == 3 for a in f.origins(c.args[2]))
+    other = [c for c in f.calls if c.p.rsplit("::", 1)[-1] in ("entry", "or_insert", "or_insert_with", "try_insert", "contains_key")]
+    chk.judge(ok and not other, R, "ActionRegistry::register_table", "the newest declaration of a name replaces the registry entry",
+              "register_table keeps an existing entry for the name (or inserts conditionally): after `push; declare g; pop; declare g` the registry still points at the popped "
+              "scope's dead table and every name-indexed access to g reports a missing table", f.loc)
+
+
 def run(chk, prog, tier):
     chk.explanation = EXPLANATION
     chk.assumptions = [
@@ -319,3 +337,4 @@ def run(chk, prog, tier):
     check_liveness(chk, prog)
     check_clone_faithful(chk, prog)
     check_push_chain(chk, prog)
+    check_registry_overwrite(chk, prog)
